@@ -119,6 +119,16 @@ def cer_history_oracle(ctx):
     return n
 
 
+def _is_ahb(s):
+    from ahbicht.expressions.ahb_expression_parser import parse_ahb_expression_to_single_requirement_indicator_expressions as parse_ahb
+
+    try:
+        parse_ahb(s)
+        return True
+    except SyntaxError:
+        return False
+
+
 def run(ctx):
     from lark import Tree
     from ahbicht.expressions.expression_resolver import parse_expression_including_unresolved_subexpressions as resolve
@@ -132,6 +142,19 @@ def run(ctx):
         if it < len(regression):
             s, tab, rp, rt = regression[it]
             absent = set()
+            if c01.parse_impl(s)[0] != "ok" and _is_ahb(s):
+                # an AHB expression (abbreviations inside its parts): the condition-expression oracle below does not apply, the AHB one does
+                evalimpl.set_cer(packages=dict(tab))
+                res = evalimpl.outcome(lambda: asyncio.run(resolve(s, resolve_packages=rp, replace_time_conditions=rt)))
+                unknown = rp and any(tab.get(m.group(1)) is None for m in PKG_RE.finditer(s))
+                bad_rep = rp and any(m.group(2) and not _rep_ok(m.group(2)) for m in PKG_RE.finditer(s))
+                if not (unknown or bad_rep or res[0] != "ok"):
+                    want = evalimpl.outcome(lambda: asyncio.run(resolve(subst_text(s, tab, rp, rt), resolve_packages=False, replace_time_conditions=False)))
+                    if want[0] != "ok" or want[1] != res[1]:
+                        ctx.fail(f"ahb-subst|{s!r}|{sorted(tab.items())}|{rp}|{rt}", {"expression": s, "packages": tab, "resolve_packages": rp, "replace_time_conditions": rt,
+                                                                                        "substituted": subst_text(s, tab, rp, rt)}, str(want[1])[:300], str(res[1])[:300],
+                                 "oracle: resolved AHB tree == parse of the bracketed textual substitution")
+                continue
         else:
             toks = strings.random_wf_tokens(rng, rng.randint(1, 9))
             s, _ot = c01.render(rng, toks)
